@@ -1,6 +1,6 @@
 From Coq Require Import Extraction ExtrOcamlBasic.
-From BV Require Import lib.ExtractBase lib.Ints model.Fee model.Lin.
+From BV Require Import lib.ExtractBase lib.Ints model.Fee model.Lin model.LinPost.
 Extraction "model.ml" extract_base
   chunking chunking_info lin_feerates is_topological feerates_in_range diagram_not_worse lin_not_worse
   valid_and_not_worse feerates_nonincreasing is_connected chunks_connected all_topo_orders dominates_all_topo
-  compare_chunks.
+  compare_chunks post_linearize.
